@@ -88,7 +88,9 @@ REL.append(f"{OPS}/ws2doptv.py::ws2doptv@rel")
 # envelope weights: every cell written so far is the validity weight times p or 1 - p (so a missing cell's weight is 0 * finite = 0)
 ENV_W = {"var": "j", "invariant": {"ww": "forall(k, 0, j, ww[k] == w[k] * wa[k] and (same(wa[k], p) or same(wa[k], p1)))"}}
 ENV_OUTER = {"var": "i", "invariant": {"ww": "implies(i >= 1, forall(k, 0, N, ww[k] == w[k] * wa[k] and (same(wa[k], p) or same(wa[k], p1))))"}}
-VOPT = {"rel_vary": ["y", "nodata"], "rel_lockstep": True, "extra_axioms": ["sub_finite", "sub_nonfinite"]}
+# rel_scratch: per-cell scratch variables that legitimately differ at missing cells (the placeholder, its envelope side, the running
+# convergence measure); naming them only saves the invariant inference two re-analyses of the nested loops
+VOPT = {"rel_vary": ["y", "nodata"], "rel_lockstep": True, "extra_axioms": ["sub_finite", "sub_nonfinite"], "rel_scratch": ["wa", "y_tmp"]}
 contract(f"{OPS}/ws2doptvp.py::ws2doptvp", variant="rel", fmodel="U",
     params={"y": "real[N]", "nodata": "real", "p": "real", "llas": "real[M]", "out": "i2[N]", "lopt": "real[1]"}, modifies=["out", "lopt"],
     requires=dict(REQ_V, finite_envelope="not isnan(p) and not isinf(p)"),
